@@ -112,6 +112,64 @@ fn check_hist(h: &Hist) -> CaseResult {
     pass(h.ops.len() >= 2, format!("ops={}", (h.ops.len() / 8) * 8))
 }
 
+/// Histories that also clone, drop and replace the cipher object: (op, block) with op 0 encrypt, 1 decrypt, 2 make a clone, use it once and drop it,
+/// 3 continue with a clone and drop the original, 4 move a clone into a thread that uses and drops it. Every answer is compared with the reference:
+/// handles must be independent of each other's lifetime.
+#[derive(Serialize, Deserialize, Hash, Debug, Clone)]
+pub struct Life {
+    pub key: Hex,
+    pub ops: Vec<(u8, Hex)>,
+}
+
+fn check_life(h: &Life) -> CaseResult {
+    let key = arr16(&h.key);
+    let r = rsm4::Sm4::new(&key);
+    let mut lib = lib_new(&key)?;
+    let mut lifecycle = 0;
+    for (i, (op, b)) in h.ops.iter().enumerate() {
+        let blk = arr16(b);
+        let want_e = r.encrypt(&blk);
+        let use_once = |c: &gm_sm4::Sm4Cipher, what: &str| -> Result<(), Fail> {
+            let got = lib_block(c, false, &blk)?;
+            if got[..] != want_e[..] {
+                return Err(Fail { key: format!("entry=Sm4Cipher::encrypt lifecycle outcome=wrong-ciphertext input={}", what), detail: format!("step {} of {}: {} gives {} instead of {}", i, h.ops.len(), what, hex::encode(&got), hex::encode(want_e)) });
+            }
+            Ok(())
+        };
+        match op % 5 {
+            0 => use_once(&lib, if lifecycle > 0 { "object-after-a-clone-was-dropped" } else { "object" })?,
+            1 => {
+                let got = lib_block(&lib, true, &blk)?;
+                let want = r.decrypt(&blk);
+                ensure!(got[..] == want[..], "entry=Sm4Cipher::decrypt lifecycle outcome=wrong-plaintext", "step {} of {} ({} clone/drop events before): {} instead of {}", i, h.ops.len(), lifecycle, hex::encode(&got), hex::encode(want));
+            }
+            2 => {
+                let c = lib.clone();
+                use_once(&c, "clone")?;
+                drop(c);
+                lifecycle += 1;
+            }
+            3 => {
+                let c = lib.clone();
+                let old = std::mem::replace(&mut lib, c);
+                drop(old);
+                lifecycle += 1;
+            }
+            _ => {
+                let c = lib.clone();
+                let res = std::thread::scope(|s| s.spawn(move || { let o = outcome(|| c.encrypt(&blk)); drop(c); o }).join());
+                match res {
+                    Ok(Outcome::Ok(v)) => ensure!(v[..] == want_e[..], "entry=Sm4Cipher::encrypt lifecycle outcome=wrong-ciphertext input=clone-in-thread", "step {}: {}", i, hex::encode(&v)),
+                    Ok(o) => return fail("entry=Sm4Cipher::encrypt lifecycle input=clone-in-thread outcome=failure", o.describe()),
+                    Err(_) => return fail("entry=Sm4Cipher::encrypt lifecycle input=clone-in-thread outcome=panic", "thread panicked".to_string()),
+                }
+                lifecycle += 1;
+            }
+        }
+    }
+    pass(lifecycle > 0 && h.ops.len() >= 2, format!("ops={}/{}", (h.ops.len() / 4) * 4, if lifecycle > 0 { "with-clone-drop" } else { "plain" }))
+}
+
 fn any16() -> impl Strategy<Value = Hex> {
     prop_oneof![
         6 => prop::array::uniform16(any::<u8>()).prop_map(|a| Hex(a.to_vec())),
@@ -308,6 +366,14 @@ pub fn run(ctx: &Ctx) {
         ctx.tier.pick(200_000, 4_000_000),
         || (any16(), any16()).prop_map(|(key, block)| KB { key, block }),
         check_kb,
+    );
+
+    ctx.generated(
+        "clone_and_drop_histories",
+        "vec((op, block), 2..16) on one cipher object where op is encrypt, decrypt, clone-use-drop, continue-with-the-clone-and-drop-the-original, clone-moved-into-a-thread: every answer == reference (handles may not depend on each other's lifetime)",
+        ctx.tier.pick(3_000, 60_000),
+        || (any16(), prop::collection::vec((0..5u8, any16()), 2..16)).prop_map(|(key, ops)| Life { key, ops }),
+        check_life,
     );
 
     ctx.generated(
